@@ -12,6 +12,8 @@ Static clauses:
   ENCODINGS each documented textual encoding is realised by its library primitive on the decoding path (Number::as_i128,
             i128 from_str_radix with radix 10, i128::from_be_bytes over a `[u8; 16]` obtained by try_from, hex::decode,
             base64 Engine::decode, bech32::decode, str::split_once + parse::<u32>), and no text-to-integer parse uses another radix
+  (forms)   S-DECLARED knows the insert-under-lookup loop and the argument map *collected* from a walk over find_params(..);
+            in the latter the walk may drop what was not supplied but passes no truncating adaptor (S-ALLSUPPLIED)
 Not decided: that each decoder inverts its encoding (value-level); ENCODINGS decides which decoders are in use.
 """
 import re
